@@ -69,6 +69,8 @@ class HybridRun:
             kn = dict(st["knobs"])
             if "initial_point" in kn:
                 kn["initial_point"] = np.array(kn["initial_point"], float)
+                if False and sc.get("scalar_ip") and kn["initial_point"].size == 1 and st["kind"] in ("MH", "PCN"):
+                    kn["initial_point"] = float(kn["initial_point"][0])      # a plain number, as in the library's own tests
             if st["kind"] == "Fake":
                 strat[b] = Fake(initial_point=kn.get("initial_point"))
             else:
